@@ -293,6 +293,7 @@ type vfSOp struct {
 	Index uint64  `json:"index,omitempty"`
 	From  uint64  `json:"from,omitempty"`
 	Size  int     `json:"size,omitempty"`
+	Ext   []int   `json:"ext,omitempty"` // sizes of the external files of a received file based snapshot
 	Mid   []vfSOp `json:"mid,omitempty"` // executed inside the state machine's Save callback
 }
 
@@ -303,6 +304,9 @@ func (o vfSOp) String() string {
 	}
 	if o.Size > 0 {
 		s += fmt.Sprintf("/%d", o.Size)
+	}
+	if len(o.Ext) > 0 {
+		s += fmt.Sprintf("+ext%v", o.Ext)
 	}
 	if len(o.Mid) > 0 {
 		var m []string
@@ -353,6 +357,7 @@ type vfLoader struct {
 	sessLen int
 	session []byte
 	data    []byte
+	files   []sm.SnapshotFile
 }
 
 func (l *vfLoader) LoadSessions(r io.Reader, v rsm.SSVersion) error {
@@ -364,6 +369,7 @@ func (l *vfLoader) LoadSessions(r io.Reader, v rsm.SSVersion) error {
 func (l *vfLoader) Recover(r io.Reader, files []sm.SnapshotFile) error {
 	d, err := io.ReadAll(r)
 	l.data = d
+	l.files = files
 	return err
 }
 
@@ -591,18 +597,30 @@ func (r *vfReplica) doCommit() {
 	}
 }
 
-func (r *vfReplica) doRecvBegin(op vfSOp) {
+// Term tags the origin of an image: locally generated snapshots carry vfTermLocal,
+// received ones vfTermRecv (the record in the log store tells which image won).
+const (
+	vfTermLocal = 1
+	vfTermRecv  = 2
+)
+
+func vfExtPayload(index uint64, id uint64, size int) []byte {
+	b := make([]byte, size)
+	for i := range b {
+		b[i] = byte(uint64(i)*13 + index*5 + id*101 + 3)
+	}
+	return b
+}
+
+// streamedChunks: an on-disk state machine streams its image (rsm.ChunkWriter).
+func (r *vfReplica) streamedChunks(op vfSOp) []pb.Chunk {
 	sink := &vfChunkSink{}
 	meta := rsm.SSMeta{
-		From: op.From, Index: op.Index, Term: 1, Membership: vfMembership(),
-		Type: pb.RegularStateMachine, CompressionType: config.NoCompression,
-	}
-	if r.onDisk {
-		meta.Type = pb.OnDiskStateMachine
-		meta.OnDiskIndex = op.Index
+		From: op.From, Index: op.Index, Term: vfTermRecv, Membership: vfMembership(),
+		Type: pb.OnDiskStateMachine, OnDiskIndex: op.Index, CompressionType: config.NoCompression,
 	}
 	cw := rsm.NewChunkWriter(sink, meta)
-	// an on-disk state machine streams: empty session image + its data
+	// empty session image + the state machine's data
 	if _, err := cw.Write(rsm.GetEmptyLRUSession()); err != nil {
 		panic(err)
 	}
@@ -612,14 +630,88 @@ func (r *vfReplica) doRecvBegin(op vfSOp) {
 	if err := cw.Close(); err != nil {
 		panic(err)
 	}
-	if len(sink.chunks) < 2 {
-		panic(fmt.Sprintf("expected >= 2 chunks, got %d", len(sink.chunks)))
+	return sink.chunks
+}
+
+// fileChunks: a regular state machine's snapshot is sent file by file: the
+// sender's snapshot file (written by the real SnapshotWriter) first, then its
+// external files, split and loaded by the real sender code
+// (transport.splitSnapshotMessage + loadChunkData, chunk size 1024).
+func (r *vfReplica) fileChunks(op vfSOp) []pb.Chunk {
+	sfs := gvfs.NewMem()
+	dir := "/sender/" + server.GetSnapshotDirName(op.Index)
+	if err := sfs.MkdirAll(dir, 0755); err != nil {
+		panic(err)
 	}
+	fp := sfs.PathJoin(dir, server.GetSnapshotFilename(op.Index))
+	w, err := rsm.NewSnapshotWriter(fp, pb.NoCompression, sfs)
+	if err != nil {
+		panic(err)
+	}
+	if _, err := w.Write(vfSessionBytes); err != nil {
+		panic(err)
+	}
+	if _, err := w.Write(vfPayload(op.Index, op.Size)); err != nil {
+		panic(err)
+	}
+	if err := w.Close(); err != nil {
+		panic(err)
+	}
+	fi, err := sfs.Stat(fp)
+	if err != nil {
+		panic(err)
+	}
+	ss := pb.Snapshot{
+		Filepath: fp, FileSize: uint64(fi.Size()), Index: op.Index, Term: vfTermRecv,
+		Membership: vfMembership(), Type: pb.RegularStateMachine, ShardID: vfShardID,
+	}
+	for i, sz := range op.Ext {
+		id := uint64(i + 1)
+		sf := &pb.SnapshotFile{FileId: id, FileSize: uint64(sz), Metadata: []byte{byte(id)}}
+		sf.Filepath = sfs.PathJoin(dir, sf.Filename())
+		f, err := sfs.Create(sf.Filepath)
+		if err != nil {
+			panic(err)
+		}
+		if _, err := f.Write(vfExtPayload(op.Index, id, sz)); err != nil {
+			panic(err)
+		}
+		if err := f.Close(); err != nil {
+			panic(err)
+		}
+		ss.Files = append(ss.Files, sf)
+	}
+	m := pb.Message{Type: pb.InstallSnapshot, From: op.From, To: vfReplicaID, ShardID: vfShardID, Snapshot: ss}
+	chunks, err := transport.VFSenderChunks(m, vfDID, sfs)
+	if err != nil {
+		panic(err)
+	}
+	return chunks
+}
+
+func (r *vfReplica) doRecvBegin(op vfSOp) {
+	var chunks []pb.Chunk
+	if r.onDisk {
+		chunks = r.streamedChunks(op)
+	} else {
+		chunks = r.fileChunks(op)
+	}
+	if len(chunks) < 2 {
+		// a file based snapshot that fits one chunk: everything happens in recvend
+		r.recvTail = chunks
+		r.recvOp = op
+		r.rsizes[op.Index] = op.Size
+		return
+	}
+	// the first half of the stream arrives now, the rest with recvend
+	n := len(chunks) / 2
 	r.fs.phase = "recv-chunks"
-	if !r.chunk.Add(sink.chunks[0]) {
-		panic("first chunk rejected")
+	for _, c := range chunks[:n] {
+		if !r.chunk.Add(c) {
+			panic("chunk rejected")
+		}
 	}
-	r.recvTail = sink.chunks[1:]
+	r.recvTail = chunks[n:]
 	r.recvOp = op
 	r.rsizes[op.Index] = op.Size
 }
@@ -808,6 +900,13 @@ func (g *vfSeqGen) draw(nested bool) vfSOp {
 		op.Index = g.recvIndex()
 		op.From = 2
 		op.Size = g.size(op.Index)
+		if !g.r.onDisk {
+			// 0..3 external files; a sender cannot ship an empty file
+			// (splitBySnapshotFile panics "empty file"), 1024 = chunk size
+			for i, n := 0, []int{0, 1, 1, 2, 3}[vfhelp.PickN(g.t, "next", 5)]; i < n; i++ {
+				op.Ext = append(op.Ext, []int{1, 40, 1024, 2500}[vfhelp.PickN(g.t, "extsz", 4)])
+			}
+		}
 	case "shrink":
 		op.Index = g.r.curIndex()
 	}
@@ -983,7 +1082,9 @@ func (r *vfReplica) startup(acked uint64, crashAt int) (fail *vfFailure) {
 			"snapshot %d is recorded in the log store but %s does not exist: %v (before cleanup %v, after %v)",
 			rec.Index, fp, err, before, after)
 	}
-	if rec.FileSize > 0 {
+	received := rec.Term == vfTermRecv
+	streamed := received && rec.FileSize == 0
+	if !received {
 		// locally generated: snapshotter.Commit wrote snapshot.metadata into the
 		// directory before publishing it (tools.ImportSnapshot / export read it);
 		// a complete snapshot directory has it, intact
@@ -1000,16 +1101,44 @@ func (r *vfReplica) startup(acked uint64, crashAt int) (fail *vfFailure) {
 			return vfFailf("c16-recorded-snapshot-incomplete", "metadata says index %d, record %d", md.Index, rec.Index)
 		}
 	}
+	if received && !streamed {
+		// file based transfer: the record carries the sizes the sender announced;
+		// every file of the recorded snapshot must be there, complete
+		fi, _ := r.fs.Stat(fp)
+		if uint64(fi.Size()) != rec.FileSize {
+			return vfFailf("c16-recorded-snapshot-file-invalid",
+				"snapshot %d is recorded with a %d byte snapshot file, %s has %d bytes (external files in the record: %d)",
+				rec.Index, rec.FileSize, fp, fi.Size(), len(rec.Files))
+		}
+		renv := r.ss.getEnv(rec.Index)
+		for _, f := range rec.Files {
+			want := r.mem.PathJoin(renv.GetFinalDir(), f.Filename())
+			if f.Filepath != want {
+				return vfFailf("c16-recorded-snapshot-file-invalid", "external file %d recorded at %s, expected %s", f.FileId, f.Filepath, want)
+			}
+			xf, err := r.fs.Open(f.Filepath)
+			if err != nil {
+				return vfFailf("c16-recorded-snapshot-file-invalid", "external file %d of recorded snapshot %d missing: %v", f.FileId, rec.Index, err)
+			}
+			data, err := io.ReadAll(xf)
+			_ = xf.Close()
+			if err != nil {
+				return vfFailf("c16-recorded-snapshot-file-invalid", "external file %d unreadable: %v", f.FileId, err)
+			}
+			if uint64(len(data)) != f.FileSize || !bytes.Equal(data, vfExtPayload(rec.Index, f.FileId, int(f.FileSize))) {
+				return vfFailf("c16-recorded-snapshot-file-invalid",
+					"external file %d of recorded snapshot %d has %d bytes, recorded %d, or differs from what was sent", f.FileId, rec.Index, len(data), f.FileSize)
+			}
+		}
+	}
 	shrunk, err := rsm.IsShrunkSnapshotFile(fp, r.fs)
 	if err != nil {
 		return vfFailf("c16-recorded-snapshot-invalid", "IsShrunkSnapshotFile(%s): %v", fp, err)
 	}
 	if !shrunk {
-		// a streamed (received) snapshot carries FileSize 0 (rsm.ChunkWriter
-		// does not know the size in advance) and production never calls
-		// Snapshot.Validate on it; locally generated ones are validated as
-		// node.doSave does
-		if rec.FileSize > 0 {
+		// production calls Snapshot.Validate only on locally generated snapshots
+		// (node.doSave); a streamed one carries FileSize 0
+		if !received {
 			if !rec.Validate(r.fs) {
 				return vfFailf("c16-recorded-snapshot-invalid", "Snapshot.Validate rejects %d", rec.Index)
 			}
@@ -1018,24 +1147,31 @@ func (r *vfReplica) startup(acked uint64, crashAt int) (fail *vfFailure) {
 				return vfFailf("c16-recorded-snapshot-invalid", "file size %d, recorded %d", fi.Size(), rec.FileSize)
 			}
 		}
-		// the initial recover: rsm.StateMachine.Recover -> snapshotter.Load
-		// a streamed (received) image carries FileSize 0 and an empty session
-		// image; a locally generated one the harness' session bytes
-		received := rec.FileSize == 0
+		// the initial recover: rsm.StateMachine.Recover -> snapshotter.Load (the
+		// real reader with its block checksums). A streamed image starts with an
+		// empty session image, file based and local ones with the harness' session bytes
 		ld := &vfLoader{sessLen: len(vfSessionBytes)}
 		sizes := r.sizes
 		if received {
-			ld.sessLen = len(rsm.GetEmptyLRUSession())
 			sizes = r.rsizes
+		}
+		if streamed {
+			ld.sessLen = len(rsm.GetEmptyLRUSession())
 		}
 		if err := r.ss.Load(rec, ld, ld); err != nil {
 			return vfFailf("c16-recorded-snapshot-invalid", "snapshotter.Load(%d): %v", rec.Index, err)
+		}
+		if !streamed && !bytes.Equal(ld.session, vfSessionBytes) {
+			return vfFailf("c16-recorded-snapshot-content-differs", "session image of snapshot %d differs", rec.Index)
+		}
+		if len(ld.files) != len(rec.Files) {
+			return vfFailf("c16-recorded-snapshot-content-differs", "Load handed %d external files to the state machine, record lists %d", len(ld.files), len(rec.Files))
 		}
 		if sz, ok := sizes[rec.Index]; ok {
 			want := vfPayload(rec.Index, sz)
 			if !bytes.Equal(ld.data, want) {
 				return vfFailf("c16-recorded-snapshot-content-differs",
-					"snapshot %d loads %d bytes that differ from what was saved (%d bytes)", rec.Index, len(ld.data), len(want))
+					"snapshot %d loads %d bytes that differ from what was saved/sent (%d bytes)", rec.Index, len(ld.data), len(want))
 			}
 		}
 	}
@@ -1168,7 +1304,8 @@ func vfCrashPoints(log []vfOp, exhaustive bool) []int {
 }
 
 func TestVF_C16_SnapshotDirCrash(t *testing.T) {
-	log.SetOutput(io.Discard) // pebble's "background error: vfs: not supported" (no disk usage on MemFS)
+	defer transport.VFSetSnapshotChunkSize(transport.VFSetSnapshotChunkSize(1024)) // tunable, see transport/monkey.go
+	log.SetOutput(io.Discard)                                                      // pebble's "background error: vfs: not supported" (no disk usage on MemFS)
 	logger.GetLogger("dragonboat").SetLevel(logger.CRITICAL)
 	logger.GetLogger("snapshotter").SetLevel(logger.CRITICAL)
 	logger.GetLogger("rsm").SetLevel(logger.CRITICAL)
@@ -1213,6 +1350,9 @@ func TestVF_C16_SnapshotDirCrash(t *testing.T) {
 				g.next = 2
 			case 2: // a received snapshot is current
 				prefix = []vfSOp{{Kind: "recvbegin", Index: 3, From: 2, Size: g.size(3)}, {Kind: "recvend"}, {Kind: "install"}}
+				if !onDisk {
+					prefix[0].Ext = []int{1024, 1}
+				}
 				g.next = 3
 			case 3: // local snapshot replaced by a received one
 				prefix = []vfSOp{{Kind: "save", Index: 2, Size: g.size(2)}, {Kind: "commit"},
@@ -1236,8 +1376,18 @@ func TestVF_C16_SnapshotDirCrash(t *testing.T) {
 
 		seq := make([]string, len(ops))
 		hasRecvDuringSave := false
+		hasExt := false
+		noteExt := func(o vfSOp) {
+			if o.Kind == "recvbegin" && len(o.Ext) > 0 {
+				hasExt = true
+			}
+		}
 		for i, o := range ops {
 			seq[i] = o.String()
+			noteExt(o)
+			for _, m := range o.Mid {
+				noteExt(m)
+			}
 			for _, m := range o.Mid {
 				if strings.HasPrefix(m.Kind, "recv") {
 					hasRecvDuringSave = true
@@ -1275,6 +1425,12 @@ func TestVF_C16_SnapshotDirCrash(t *testing.T) {
 			}
 			if hasRecvDuringSave {
 				classes = append(classes, "seq:receive-during-local-save")
+			}
+			if hasExt {
+				classes = append(classes, "seq:received-snapshot-with-external-files")
+			}
+			if k <= len(oplog) && strings.Contains(oplog[k-1].path, "external-file-") {
+				classes = append(classes, "before-op-on-external-file")
 			}
 			classes = append(classes, fmt.Sprintf("scenario:%d", scenario))
 			if onDisk {
